@@ -735,6 +735,11 @@ def oracle_c19(r, F):
             if ok_sub and avail:
                 if st is None or st[1] != rid:
                     out.append(('item %s: last request %s was a successful subscription but the live id is %r' % (item, rid, None if st is None else st[1]), {'kind': 'wrong_live'}))
+            if ok_sub and item in r.probe:
+                # ... and behaviourally: an event for the live subscription is forwarded with its id (whatever the structures look like)
+                msgs = r.probe[item]
+                if not (len(msgs) == 1 and strip_ts(msgs[0])[1].split('|')[4:5] == [rid]):
+                    out.append(('item %s: last request %s was a successful subscription but a later event gave %r' % (item, rid, msgs), {'kind': 'wrong_live'}))
     extra = set(r.final) - set(last)
     if extra:
         out.append(('bookkeeping for items never requested: %r' % (extra,), {'kind': 'retained'}))
